@@ -155,4 +155,15 @@ def gradeGe (l : List Int) (i j : Nat) : Bool :=
 /-- `⇩` (grade down) -/
 def gradeDown (l : List Int) : List Nat := (List.range l.length).mergeSort (gradeGe l)
 
+/-- `Z` (zip): `zip_longest` with `0` for the missing side -/
+def zipLongest : List Int → List Int → List (Int × Int)
+  | [], bs => bs.map (fun b => (0, b))
+  | a :: as, [] => (a, 0) :: zipLongest as []
+  | a :: as, b :: bs => (a, b) :: zipLongest as bs
+
+/-- `∩` (transpose), ragged rows allowed: `zip_longest(*rows, fillvalue=None)` with the `None`s dropped —
+    column `i` holds item `i` of every row that has one -/
+def transposeR (m : List (List Int)) : List (List Int) :=
+  (List.range (m.foldl (fun k r => max k r.length) 0)).map (fun i => m.filterMap (fun r => r[i]?))
+
 end Ls
